@@ -1760,10 +1760,12 @@ func findRequiredLandmarkChainLeftToRight(r *Runner, chain *syntax.RequiredLandm
 			nextStart = landmark.End
 		}
 
-		candidate := first.Start
-		if candidate < r.Runtextpos {
-			candidate = r.Runtextpos
-		}
+		// The candidate must not lie to the right of a position where a match can
+		// start. The occurrence found first need not be the one the match uses: it
+		// may sit inside the whitespace another alternative of the landmark begins
+		// with (\t inside the run of \s+=). So walk left over the whitespace any
+		// alternative could absorb, then over the leading loop.
+		candidate := rewindRequiredLandmarkWhitespace(r.Runtext, first.Start, r.Runtextpos, chain.Landmarks[0])
 		for candidate > r.Runtextpos && chain.LeadingLoopSet.CharIn(r.Runtext[candidate-1]) {
 			candidate--
 		}
@@ -1779,6 +1781,29 @@ func findRequiredLandmarkChainLeftToRight(r *Runner, chain *syntax.RequiredLandm
 	return false
 }
 
+// rewindRequiredLandmarkWhitespace moves pos left, not past limit, over the
+// characters that the leading whitespace of any alternative of the landmark
+// can consume.
+func rewindRequiredLandmarkWhitespace(input []rune, pos, limit int, landmark syntax.RequiredLandmark) int {
+	if pos < limit {
+		return limit
+	}
+	for pos > limit {
+		absorbed := false
+		for _, alt := range landmark.Alternatives {
+			if alt.LeadingWhitespaceSet != nil && alt.LeadingWhitespaceSet.CharIn(input[pos-1]) {
+				absorbed = true
+				break
+			}
+		}
+		if !absorbed {
+			break
+		}
+		pos--
+	}
+	return pos
+}
+
 type requiredLandmarkMatch struct {
 	Start     int
 	CoreStart int
@@ -1786,7 +1811,8 @@ type requiredLandmarkMatch struct {
 }
 
 func findNextRequiredLandmarkRunes(input []rune, startAt, endAt int, landmark syntax.RequiredLandmark) (requiredLandmarkMatch, bool) {
-	// Start and CoreStart describe the first occurrence of any alternative. End
+	// CoreStart describes the first occurrence of any alternative and Start is
+	// the leftmost start among the occurrences looked at. End
 	// has to be the earliest position at which ANY occurrence can end, because
 	// the next landmark is searched from there and not finding it ends the scan:
 	// another alternative at the same position may be shorter (abc|a), and an
@@ -1802,8 +1828,14 @@ func findNextRequiredLandmarkRunes(input []rune, startAt, endAt int, landmark sy
 			if !found {
 				best = match
 				found = true
-			} else if match.End < best.End {
+				continue
+			}
+			if match.End < best.End {
 				best.End = match.End
+			}
+			// another alternative may begin further left (\s*; next to ;)
+			if match.Start < best.Start {
+				best.Start = match.Start
 			}
 		}
 	}
